@@ -280,6 +280,7 @@ def probeLine (line : String) : String :=
       | "provider.ActiveProviderKey" => "ok " ++ toHex (provider.ActiveProviderKey a)
       | "provider.InactiveProviderKey" => "ok " ++ toHex (provider.InactiveProviderKey a)
       | "plan.ActivePlanKey" => "ok " ++ toHex (plan.ActivePlanKey i)
+      | "swap.SwapKey" => "ok " ++ toHex (swap.SwapKey (toHash32 a))
       | _ => "bad-case"
     | "b32enc" => Hub.SDK.Bech32.runBech32Probe line
     | "b32dec" => Hub.SDK.Bech32.runBech32Probe line
